@@ -14,20 +14,20 @@ Proof. intros H. apply sig_views_app, ends_with_nl_last_lf, H. Qed.
 
 (* the regenerated preambles and the closing line are in the dialect *)
 Lemma constants_lex :
-  Forall (lexes stok sig_views) require_lua_preamble_package /\
-  Forall (lexes stok sig_views) require_lua_preamble_require /\
-  lexes stok sig_views end_line_now.
+  Forall (lexes (Z * list Z * Z * Z * Z) sig_views) require_lua_preamble_package /\
+  Forall (lexes (Z * list Z * Z * Z * Z) sig_views) require_lua_preamble_require /\
+  lexes (Z * list Z * Z * Z * Z) sig_views end_line_now.
 Proof.
   unfold lexes. repeat split; repeat constructor; vm_compute; discriminate.
 Qed.
 
 Lemma build_code_tokens_spec :
-  (forall ls q, from_lines ls = Ok q -> sig_views (concat (echo_lines q)) = sig_views (concat ls)) ->
+  (forall ls q t, from_lines ls = Ok q -> sig_views (concat ls) = Some t -> sig_views (concat (echo_lines q)) = Some t) ->
   forall cwd fs lua_path fuel main_path main_content out,
   build_code_now cwd fs lua_path fuel main_path main_content = Ok out ->
   exists r pk, build_lua_now cwd fs lua_path fuel main_path main_content = Ok (r, pk) /\
-    let toks := toks stok sig_views in
-    let lexes := lexes stok sig_views in
+    let toks := toks (Z * list Z * Z * Z * Z) sig_views in
+    let lexes := lexes (Z * list Z * Z * Z * Z) sig_views in
     (Forall (fun e => lexes (header_line_now (fst e)) /\ lexes (concat (echo_lines (snd e)))) pk ->
      lexes main_content ->
      sig_views out = Some match pk with
@@ -39,7 +39,7 @@ Lemma build_code_tokens_spec :
                           end).
 Proof.
   intros Hecho cwd fs lua_path fuel mp mc out H.
-  destruct (build_code_tokens_now stok sig_views sig_views_chunking sig_views_final_lf sig_views_nil Hecho
+  destruct (build_code_tokens_now (Z * list Z * Z * Z * Z) sig_views sig_views_chunking sig_views_final_lf sig_views_nil Hecho
               cwd fs lua_path fuel mp mc out H) as (r & pk & Hb & Ht).
   exists r, pk. split; [exact Hb|]. cbv zeta in *. intros Hpk Hmc.
   destruct constants_lex as (H1 & H2 & H3). apply Ht; assumption.
